@@ -206,6 +206,10 @@ func c10cancel(ip *interp.Interpreter, ev c10ev, nchan *int, before map[uint64]b
 		src = "host.Tick(99)"
 		k = 1
 	}
+	// no goroutine of an earlier use may still be on its way out: it would be the one the hook parks
+	if left, _, _, _ := c09settle(before, c09ExitBound, nil); len(left) > 0 {
+		return what, "goroutines of earlier events are still alive: " + c09short(left[0].stack)
+	}
 	r := c09newRun(ip, k)
 	c09tickTarget.Store(r)
 	c09cur.Store(r)
